@@ -101,6 +101,12 @@ func dumpString(r *rand.Rand) string {
 	if chance(r, 0.6) {
 		return pick(r, dumpStrings)
 	}
+	if chance(r, 0.04) {
+		// long texts: around 1 KiB, 4 KiB, 64 KiB; ASCII and multi-byte
+		n := pick(r, []int{1023, 1024, 1025, 1200, 4097, 70000})
+		unit := pick(r, []string{"a", "xy ", "中", "é"})
+		return strings.Repeat(unit, n/len(unit)+1)
+	}
 	var sb strings.Builder
 	for i, n := 0, 1+r.IntN(5); i < n; i++ {
 		sb.WriteRune(pick(r, dumpRunes))
